@@ -225,6 +225,7 @@ Section Frame.
               alookup tx_eqb t (w_arr w) = alookup slot_eqb (slot_of t) (arrival s);
     S_arr_nd : NoDup (map fst (arrival s));
     S_led : forall a, lookup0 a (w_led w) <= get_cn s a;
+    S_live : forall h, In h (w_live w) -> In h (map fst (hashmap s));
     S_prev : exists bs r, w_prev w = observe s bs r
   }.
 
@@ -316,6 +317,7 @@ Section Frame.
     - intros t. rewrite touch_item, H5. apply (S_arr _ _ S).
     - rewrite H5. apply (S_arr_nd _ _ S).
     - intro a. rewrite fold_touch_cn. apply (S_led _ _ S).
+    - rewrite H1. apply (S_live _ _ S).
     - destruct (S_prev _ _ S) as [bs [r E]]. exists bs, r. rewrite observe_touch. exact E.
   Qed.
 
